@@ -58,7 +58,24 @@ fn gen(t: &mut Tape) -> (DiffCase, Cfg, Labels) {
             if t.chance(1, 5) {
                 items.push(Item::Commit(crate::gen::diff::gen_commit(t, &[])));
             }
+            // git's default core.quotePath: names with bytes outside ASCII are written quoted, with
+            // octal escapes, in every header line of the section
+            if !s.new_path.is_ascii() || !s.old_path.is_ascii() {
+                if t.chance(1, 2) {
+                    crate::gen::diff::quote_paths(&mut s);
+                }
+            }
             items.push(Item::Section(s));
+            // `git diff --submodule=log`: an entry for a changed submodule stands between file
+            // sections without a "diff" line of its own
+            if t.chance(1, 8) {
+                let name = format!("sub_{}", t.below(90) + 10);
+                let mut ls = vec![format!("Submodule {} {}..{}:", name, crate::gen::text::hex(t, 7), crate::gen::text::hex(t, 7))];
+                for _ in 0..t.range(0, 2) {
+                    ls.push(format!("  > {}", crate::gen::text::ident(t)));
+                }
+                items.push(Item::Free(ls));
+            }
         }
         DiffCase { items, final_newline: !t.chance(1, 10) }
     };
@@ -237,12 +254,30 @@ fn evaluate(case: &DiffCase, cfg: &Cfg, l: &Labels, out: &[u8]) -> Result<(), Fa
     enum Ev {
         File(usize),
         Hunk(usize, usize),
+        /// a `Submodule <name> a..b:` entry
+        Sub(String),
     }
     let mut evs: Vec<Ev> = Vec::new();
-    for (si, s) in secs.iter().enumerate() {
+    let mut si = 0usize;
+    for it in &case.items {
+        let s = match it {
+            Item::Section(_) => secs[si],
+            Item::Free(ls) => {
+                // a submodule entry is written like a file header, in its place in the stream
+                if let Some(name) = ls.first().and_then(|l| l.strip_prefix("Submodule ")) {
+                    if !file_omitted {
+                        evs.push(Ev::Sub(name.split(' ').next().unwrap_or("").to_string()));
+                    }
+                }
+                continue;
+            }
+            _ => continue,
+        };
         if !file_omitted {
             evs.push(Ev::File(si));
         }
+        si += 1;
+        let si = si - 1;
         if s.kind == SK::SubmoduleShort {
             continue; // summarised: no hunk header by design
         }
@@ -253,13 +288,38 @@ fn evaluate(case: &DiffCase, cfg: &Cfg, l: &Labels, out: &[u8]) -> Result<(), Fa
             }
         }
     }
+    // Where a header stands: in the unified view of two-way sections every hunk line is one content
+    // row, so when the header of section j is written, the rows of all earlier sections' lines must
+    // be out already (counted over lines with visible text; a conflict region, a combined diff or a
+    // summarised submodule section changes the row count and switches the count off).
+    let countable = !cfg.has("side-by-side") && secs.iter().all(|s| !matches!(s.kind, SK::Combined | SK::SubmoduleShort) && s.hunks.iter().all(|h| h.conflict.is_none()));
+    let lines_before: Vec<usize> = {
+        let mut acc = 0usize;
+        secs.iter()
+            .map(|s| {
+                let here = acc;
+                acc += s.hunks.iter().map(|h| h.lines.iter().filter(|l| !l.text.trim().is_empty()).count()).sum::<usize>();
+                here
+            })
+            .collect()
+    };
+    let mut content_rows = 0usize;
     let mut next = 0usize;
     for (ri, cr) in crows.iter().enumerate() {
         match cr.kind {
             RowKind::FileHeader => {
                 let text = cr.row.text();
                 match evs.get(next) {
+                    Some(Ev::Sub(name)) => {
+                        if !text.contains(&format!("Submodule {} ", name)) || text.contains("(mode") {
+                            return Err(fail("submodule-entry", format!("expected the entry of submodule `{}` (and nothing of another section) at output row {}; the row shows `{}`", name, ri, text.trim())));
+                        }
+                        next += 1;
+                    }
                     Some(Ev::File(si)) => {
+                        if countable && content_rows < lines_before[*si] {
+                            return Err(fail("file-header-before-previous-lines", format!("the file header of section {} (`{}`) is written at output row {} when only {} of the {} hunk lines of the sections before it have been shown: the rest would appear under the wrong file", si, text.trim(), ri, content_rows, lines_before[*si])));
+                        }
                         if let Err(m) = check_file_header(secs[*si], &text, l, cfg) {
                             if m == BINARY_NOT_REPORTED {
                                 if deferred.is_none() {
@@ -311,6 +371,9 @@ fn evaluate(case: &DiffCase, cfg: &Cfg, l: &Labels, out: &[u8]) -> Result<(), Fa
                 }
             }
             RowKind::Minus | RowKind::Plus | RowKind::Zero | RowKind::Mixed => {
+                if !rows::text_without_gutter(cr.row).trim().is_empty() {
+                    content_rows += 1;
+                }
                 // content may only appear once its section's file header (and hunk header) is out
                 if let Some(Ev::File(si)) = evs.get(next) {
                     // content before the header of the next section is fine only if it belongs
@@ -324,7 +387,7 @@ fn evaluate(case: &DiffCase, cfg: &Cfg, l: &Labels, out: &[u8]) -> Result<(), Fa
         }
     }
     if next != evs.len() {
-        return Err(fail("header-missing", format!("{} of {} expected headers were shown; first missing: {:?} ({})", next, evs.len(), evs[next], match &evs[next] { Ev::File(si) | Ev::Hunk(si, _) => format!("{} {}", secs[*si].kind.name(), secs[*si].new_path) })));
+        return Err(fail("header-missing", format!("{} of {} expected headers were shown; first missing: {:?} ({})", next, evs.len(), evs[next], match &evs[next] { Ev::File(si) | Ev::Hunk(si, _) => format!("{} {}", secs[*si].kind.name(), secs[*si].new_path), Ev::Sub(n) => format!("submodule entry {}", n) })));
     }
     // binary files of a plain `diff -r` stream must be reported too
     let vis = term::visible_text(out);
